@@ -76,11 +76,11 @@ type bsMachine struct {
 	logMu    sync.Mutex
 	log      []bsLogEntry
 	logSeen  int
-	fixedCB  int    // FixedBufferCleaner callback invocations
-	fixedBad string // mismatch seen in a FixedBufferCleaner notification
+	fixedCB  int          // FixedBufferCleaner callback invocations
+	fixedBad string       // mismatch seen in a FixedBufferCleaner notification
 	allowed  map[int]bool // bases reachable through intermediate states of a compound step (no-log mode)
-	cfgDirty bool   // the cleaner was replaced and no state change (hence no cleaner pass) has happened since
-	winChg   bool   // a change landed strictly inside a cooldown window (not yet followed by an eviction)
+	cfgDirty bool         // the cleaner was replaced and no state change (hence no cleaner pass) has happened since
+	winChg   bool         // a change landed strictly inside a cooldown window (not yet followed by an eviction)
 	lastChg  time.Time
 	simple   bool // the step consisted of exactly one state-changing library call
 	trace    []string
@@ -1047,7 +1047,7 @@ func (m *bsMachine) drawCleaner(t *rapid.T) {
 
 // rangeScript actions per callback index
 type bsRangeAct struct {
-	kind string // "cont" | "stop" | "panic" | "put" | "cancel"
+	kind string // "cont" | "stop" | "panic" | "put" | "cancel" | "steal" (another reader Gets from the same consumer during the callback)
 	k    int
 }
 
@@ -1055,14 +1055,14 @@ func (m *bsMachine) drawRangeScript(t *rapid.T) []bsRangeAct {
 	n := rapid.IntRange(1, 5).Draw(t, "rangeLen")
 	out := make([]bsRangeAct, n)
 	for i := range out {
-		kind := rapid.SampledFrom([]string{"cont", "cont", "cont", "put", "stop", "panic", "cancel"}).Draw(t, "rangeAct")
+		kind := rapid.SampledFrom([]string{"cont", "cont", "cont", "put", "stop", "panic", "cancel", "steal", "steal"}).Draw(t, "rangeAct")
 		out[i] = bsRangeAct{kind: kind}
 		if kind == "put" {
 			out[i].k = rapid.IntRange(1, 2).Draw(t, "rangePutK")
 		}
 	}
 	// the last entry always ends the iteration
-	if k := out[n-1].kind; k == "cont" || k == "put" {
+	if k := out[n-1].kind; k == "cont" || k == "put" || k == "steal" {
 		out[n-1].kind = rapid.SampledFrom([]string{"stop", "panic", "cancel"}).Draw(t, "rangeEnd")
 	}
 	return out
@@ -1093,9 +1093,12 @@ func (m *bsMachine) ruleRange(t *rapid.T) {
 	ctx, cancel := context.WithCancel(context.Background())
 	defer cancel()
 	var calls []bsRangeCall
+	var stolen []any
+	readPos := c.pos() // harness-side read position of this consumer while the range runs
 	sentinel := fmt.Sprintf("range-panic-%d", len(m.trace))
 	fn := func(index int, value any) bool {
 		calls = append(calls, bsRangeCall{index, value})
+		readPos++
 		i := len(calls) - 1
 		if i >= len(script) {
 			return true
@@ -1107,6 +1110,17 @@ func (m *bsMachine) ruleRange(t *rapid.T) {
 			panic(sentinel)
 		case "cancel":
 			cancel()
+		case "steal":
+			// the consumer is shared: somebody else reads its next value while this callback is running
+			// (only when one is available, so that the extra Get cannot block)
+			if readPos < len(m.G) {
+				v, err := c.c.Get(context.Background())
+				if err != nil {
+					v = fmt.Sprintf("error: %v", err)
+				}
+				stolen = append(stolen, v)
+				readPos++
+			}
 		case "put":
 			vals := m.nextTokens(a.k)
 			args := make([]any, a.k)
@@ -1132,14 +1146,15 @@ func (m *bsMachine) ruleRange(t *rapid.T) {
 
 	// ---- model: simulate the documented loop sequentially
 	var (
-		want      []bsRangeCall
-		wantRes   string // "nil" | "ctx" | "panic" | "blocked"
-		simG      = append([]int(nil), m.G[:g0]...)
-		simNext   = next0
-		committed = c.committed
-		delta     = c.delta
-		cancelled = false
-		putTotal  = 0
+		want       []bsRangeCall
+		wantRes    string // "nil" | "ctx" | "panic" | "blocked"
+		simG       = append([]int(nil), m.G[:g0]...)
+		simNext    = next0
+		committed  = c.committed
+		delta      = c.delta
+		cancelled  = false
+		putTotal   = 0
+		wantStolen []any
 	)
 	if !pkg && len(simG)-(committed+delta) <= 0 {
 		wantRes = "nil"
@@ -1175,6 +1190,10 @@ func (m *bsMachine) ruleRange(t *rapid.T) {
 		if act.kind == "cancel" {
 			cancelled = true
 		}
+		if act.kind == "steal" && committed+delta < len(simG) {
+			wantStolen = append(wantStolen, simG[committed+delta])
+			delta++ // read by the other reader; covered by the same Commit
+		}
 		committed += delta // committed only after the callback returned
 		delta = 0
 		{
@@ -1202,6 +1221,10 @@ func (m *bsMachine) ruleRange(t *rapid.T) {
 			m.tr("%s", desc)
 			m.fail("C02/range-callbacks", "callback %d got (index %d, value %v), expected (index %d, value %v)", i, calls[i].index, calls[i].value, want[i].index, want[i].value)
 		}
+	}
+	if fmt.Sprint(stolen) != fmt.Sprint(wantStolen) && len(calls) == len(want) {
+		m.tr("%s", desc)
+		m.fail("C02/range-shared-reader", "the reader sharing the consumer during the callbacks got %v, expected %v", stolen, wantStolen)
 	}
 	if fmt.Sprint(m.G) != fmt.Sprint(simG) {
 		panic(fmt.Sprintf("harness: range model inconsistent: G=%v sim=%v", m.G, simG))
